@@ -182,6 +182,28 @@ def ops : List (String × Op) := [
         | ["ok", "accept"] => pure "pass"
         | "ok" :: _ => pure ("fail " ++ " ".intercalate (a.take 3))
         | _ => pure "n/a"),
+  ("indep", do
+      let a ← pAfterArrow
+      match a with
+      | "ok" :: "skip" :: _ => pure "n/a"
+      | "ok" :: "shared" :: rest =>
+        let run : P String := do
+          let sh ← pList pStr
+          match (← tok) with | "changed" => pure () | t => throw s!"changed? {t}"
+          let _ ← pList pStr
+          match (← tok) with | "stale" => pure () | t => throw s!"stale? {t}"
+          let _ ← pList pStr
+          match (← tok) with | "exports" => pure () | t => throw s!"exports? {t}"
+          let e1 ← tok; let e2 ← tok; let e3 ← tok
+          match (← tok) with | "guids" => pure () | t => throw s!"guids? {t}"
+          let g1 ← tok; let g2 ← tok; let g3 ← tok
+          match (← tok) with | "state" => pure () | t => throw s!"state? {t}"
+          let s1 ← tok; let s2 ← tok
+          pure (verdict (okIndep sh.length [e1, e2, e3] [g1, g2, g3] [s1, s2]))
+        match run.run rest with
+        | .ok (v, _) => pure v
+        | .error e => pure ("fail unparsable " ++ e)
+      | _ => pure ("fail " ++ " ".intercalate (a.take 3))),
   ("obj", do let a ← pAfterArrow; pure (cleanVerdict a)),
   ("sweep", do let a ← pAfterArrow; pure (cleanVerdict a)),
   ("pickleleaf", do let a ← pAfterArrow; pure (cleanVerdict a)),
